@@ -35,6 +35,8 @@ def build(ctx):
     part_generated_marker(ctx, eng, rp)
     part_module_gate(ctx, eng, rp)
     part_disable_all(ctx, eng, rp)
+    import resolvermodel
+    resolvermodel.part_visit_sub_mod(ctx, eng, 'C04', resolvermodel.replay_visit_sub_mod)
 
 
 KF_CFG3 = 'C04/is_skip/cfg_attr-with-more-than-one-attribute-is-not-recognised'
